@@ -33,6 +33,16 @@ def lib(variant="plain"):
         L.vp_stderr_since.restype = c_long; L.vp_stderr_since.argtypes = [c_long, c_char_p, c_long]
         L.vp_init.restype = None
         L.vp_rng_fresh.restype = None
+        L.vp_pool.argtypes = [c_int]; L.vp_pool.restype = None
+        L.vp_raw_convert.restype = c_void_p; L.vp_raw_convert.argtypes = [c_char_p, c_ulong, c_int, c_int]
+        L.vp_raw_to_data.restype = c_void_p; L.vp_raw_to_data.argtypes = [c_char_p, c_size_t, c_ulong, c_int, c_int, c_char_p, POINTER(c_size_t)]
+        L.vp_engine_new.restype = c_void_p; L.vp_engine_new.argtypes = [c_char_p, c_ulong]
+        L.vp_engine_convert.restype = c_void_p; L.vp_engine_convert.argtypes = [c_void_p, c_int]
+        L.vp_engine_parse_export.restype = c_void_p; L.vp_engine_parse_export.argtypes = [c_void_p, c_int]
+        L.vp_engine_query.restype = c_void_p; L.vp_engine_query.argtypes = [c_void_p]
+        L.vp_engine_source.restype = c_char_p; L.vp_engine_source.argtypes = [c_void_p]
+        L.vp_engine_free.argtypes = [c_void_p]; L.vp_engine_free.restype = None
+        L.vp_global_state.restype = ctypes.c_uint64
         _lib = L
     return _lib
 
